@@ -162,3 +162,18 @@ func VerifSelf_Sort(cs int) {
 	VsObserve(ids(b))
 	VsReach("sorted")
 }
+
+// VerifSelf_Atoi: strconv.Atoi on 18..20 symbolic digits with an optional sign (values around the ends
+// of the int64 range saturate with a range error). cs%3: 18 + cs%3 digits, cs/3%3: no sign, '-', '+'.
+func VerifSelf_Atoi(cs int) {
+	d := []string{"", "-", "+"}[cs/3%3] + "92233720368547758"[:17-cs%2] + VsBytes("d", 1+cs%3+cs%2, '0', '9')
+	n, err := strconv.Atoi(d)
+	VsObserve(d)
+	VsObserve(n)
+	VsObserve(err == nil)
+	if err != nil {
+		VsObserve(err.Error())
+	}
+	VsObserve(n > 1000)
+	VsReach("atoi-observed")
+}
